@@ -26,6 +26,8 @@ pub struct Size {
 }
 
 pub const QUICK: Size = Size { min_ops: 15, max_ops: 140, max_keys: 40, max_reopens: 3 };
+pub const BASE_QUICK: Size = Size { min_ops: 4, max_ops: 60, max_keys: 16, max_reopens: 2 };
+pub const BASE_THOROUGH: Size = Size { min_ops: 4, max_ops: 150, max_keys: 24, max_reopens: 3 };
 pub const THOROUGH: Size = Size { min_ops: 15, max_ops: 320, max_keys: 64, max_reopens: 6 };
 
 const N_KINDS: usize = 25;
@@ -144,7 +146,7 @@ fn base_weights(p: Profile) -> [u32; N_KINDS] {
             w[BURST] = 8;
         }
         Profile::Base => {
-            for x in [GETSNAP, SNAPDUMP, ITEROPEN, ITERSEEK, ITERFIRST, ITERLAST, ITERNEXT, ITERPREV, ITERDUMP, ITERCLOSE, SNAP, RELEASE, CHECKALL, QUIESCE, REOPEN, GETMANY] {
+            for x in [GETSNAP, SNAPDUMP, ITEROPEN, ITERSEEK, ITERFIRST, ITERLAST, ITERNEXT, ITERPREV, ITERDUMP, ITERCLOSE, SNAP, RELEASE, CHECKALL, QUIESCE, GETMANY, DIRCHECK] {
                 w[x] = 0;
             }
             w[GET] = 3;
